@@ -58,13 +58,16 @@ def elem_arrays(P, f):
     """heap arrays built by f: (alloca holding the array pointer, element DI type, element size)"""
     out = []
     for a in f.allocas().values():
-        t = P.di(a.get("ditype", -1))
+        t = P.di_strip(a.get("ditype", -1), typedefs=False) or P.di(a.get("ditype", -1))       # `T *const state`
         if t and t["kind"] == "pointer":
             el = P.di_strip(t["base"])
             if el and el["kind"] == "struct" and el["size"] > 0:
-                # assigned from malloc
+                # assigned from malloc (the allocation itself, not a second pointer into it)
                 for s in f.all_insts():
                     if s.op == "store" and s["ptr"].get("k") == "inst" and s["ptr"]["id"] == a.id:
+                        v = f.resolve(rules.strip_casts(f, s["val"]))
+                        if v is not None and v.op == "load":
+                            continue
                         if any(tg[0] == "call" and tg[1] in ALLOCS for tg in flow.origins(f, s["val"])):
                             out.append((a, t["base"], el["size"]))
                             break
@@ -92,8 +95,30 @@ def elem_offset(f, ptr, arr_alloca, esize):
             continue
         if i.op == "load" and i["ptr"].get("k") == "inst" and i["ptr"]["id"] == arr_alloca.id:
             return off if seen_var else None
+        if i.op == "load" and i["ptr"].get("k") == "inst" and not seen_var and 0 <= off < esize and _running_elem_ptr(f, i["ptr"]["id"], arr_alloca, esize):
+            return off          # `dst->field` with dst a running write position in the array (starts at the array, advances by whole elements)
         return None
     return None
+
+
+def _running_elem_ptr(f, aid, arr_alloca, esize):
+    a = f.insts[aid]
+    if a.op != "alloca" or f.param_index_of_alloca(a) is not None or aid == arr_alloca.id or rules._escapes(f, a):
+        return False
+    sts = [x for x in f.all_insts() if x.op == "store" and x["ptr"].get("k") == "inst" and x["ptr"]["id"] == aid]
+    start = step = 0
+    for x in sts:
+        v = f.resolve(rules.strip_casts(f, x["val"]))
+        if v is not None and v.op == "load" and v["ptr"].get("k") == "inst" and v["ptr"]["id"] == arr_alloca.id:
+            start += 1
+        elif v is not None and v.op == "getelementptr" and not v["idx"] and v["off"] == esize:
+            b = f.resolve(rules.strip_casts(f, v["base"]))
+            if b is None or b.op != "load" or b["ptr"].get("k") != "inst" or b["ptr"]["id"] != aid:
+                return False
+            step += 1
+        else:
+            return False
+    return start >= 1 and step >= 1
 
 
 def _member_names(P, sid, depth=0):
